@@ -3,7 +3,7 @@
 //! stdin: cases in the line protocol of `lean/SteelVerif/C14/Driver.lean`
 //!   case <id> | module <k> | def <n> | prov <n> | cprov <n> | req <spec> | view <n>… | end
 //!           | mac <n> | mprov <n> | fsprov <n>   (define-syntax; provide it as an identifier / as (for-syntax n))
-//!   request | req <spec> | def <n> | mode ok|syntax|freeid|runtime|form:<kw> | obs <n>… | end | poke | endcase
+//!   request | req <spec> | def <n> | use <n>… (the program refers to these names) | mode ok|reader|macrodef|syntax|freeid|runtime|form:<kw> | obs <n>… | end | poke | endcase
 //!   <spec> ::= <k>[~<spelling>] | p:<prefix>:<spec> | o:<id>[=<to>],…:<spec>
 //!   inside a module: `dir <sub/dir>` puts the module's file into that sub-directory of the case.
 //!   <spelling> selects how the (relative) path in the require form is written: 0 shortest, 1 with a
@@ -22,7 +22,7 @@
 //! host function `(c14-bump! k)` and registers, per `view` name, a probe closure with `(c14-probe! k (lambda () …))`
 //! that reports, through `(c14-report! k "name" value)`, what the name is bound to.
 //! stdout, per request (same canonical form as the driver):
-//!   req <i> <ok|err:syntax|err:free-id|err:runtime|err:other:<Kind>>
+//!   req <i> <ok|err:read|err:syntax|err:free-id|err:runtime|err:other:<Kind>>
 //!   obs <name>=<value|err:free-id> …
 //!   view <k> <name>=<value> …            for every module whose body ran (ascending k)
 //!   cnt <k>:<body evaluations> …
@@ -147,6 +147,7 @@ struct Request {
     defs: Vec<String>,
     mode: String,
     obs: Vec<String>,
+    uses: Vec<String>,
 }
 
 #[derive(Default, Clone, Debug)]
@@ -289,6 +290,7 @@ fn err_kind(e: &steel::SteelErr) -> String {
     match e.kind() {
         ErrorKind::FreeIdentifier => "err:free-id".into(),
         ErrorKind::BadSyntax => "err:syntax".into(),
+        ErrorKind::Parse => "err:read".into(),
         ErrorKind::Generic => "err:runtime".into(),
         k => format!("err:other:{k:?}"),
     }
@@ -342,6 +344,10 @@ fn request_text(i: usize, r: &Request, dirs: &[String]) -> String {
         s.push_str(&define_text(&format!("top{i}"), d));
         s.push('\n');
     }
+    if !r.uses.is_empty() {
+        // the program itself refers to these names: an unbound one is a free identifier when it is built
+        s.push_str(&format!("(list {})\n", r.uses.join(" ")));
+    }
     if let Some(form) = r.mode.strip_prefix("form:") {
         // a require with a list form `parse_require_object_inner` has no arm for
         let target = spec_sexp(&Spec::Path(0, 0), "", dirs);
@@ -351,6 +357,12 @@ fn request_text(i: usize, r: &Request, dirs: &[String]) -> String {
         }
     }
     match r.mode.as_str() {
+        // rejected by the reader: nothing of the program is evaluated
+        "reader" => s.push_str("(define c14-unfinished (\n"),
+        // rejected while the program's macro definitions are extracted (before its requires are looked at):
+        // a repeated pattern variable / two ellipses in one pattern, alternating
+        "macrodef" if i % 2 == 0 => s.push_str("(define-syntax c14-md (syntax-rules () [(_ a a) a]))\n"),
+        "macrodef" => s.push_str("(define-syntax c14-md (syntax-rules () [(_ a ... b ...) a]))\n"),
         "syntax" => s.push_str("(c14-bad-macro 1 2)\n"),
         "freeid" => s.push_str("c14-this-identifier-is-not-defined\n"),
         "runtime" => s.push_str("(error \"c14-boom\")\n"),
@@ -626,6 +638,7 @@ fn main() {
             },
             (["mode", md], 2) => r.mode = md.to_string(),
             (["obs", ns @ ..], 2) => r.obs.extend(ns.iter().map(|s| s.to_string())),
+            (["use", ns @ ..], 2) => r.uses.extend(ns.iter().map(|s| s.to_string())),
             (["end"], 2) => {
                 cur.reqs.push(r.clone());
                 ctx = 0;
